@@ -8,6 +8,7 @@
    N <hex>              decode_next                     -> N ok <next> <rest> | N err | N panic
    T <hex>              GetTypeAndValue + FieldTo*      -> T <ft> <payload> str= bool= i32= i64= f64= time=
    S <dump> <nphases> phase{n} R <n> <name>{n}          -> see run_scenario
+   X <chain> <id> <dump> <nphases> phase{n} R ...       -> see run_persist_scenario
 *)
 
 let toks : string array ref = ref [||]
@@ -51,16 +52,24 @@ let rec parse_dump () : bucket =
         else (key, Sub (parse_dump ())))
   | t -> failwith ("bad dump token " ^ t)
 
-let rec parse_checker () : checker =
+(* the names of a phase's checker when it is a plain MapFieldChecker (its ToSlice is observed) *)
+let checker_names : str list option ref = ref None
+let rec parse_checker_inner () : checker =
   match next () with
   | "*" -> None
-  | "c" -> let k = next_int () in let names = n_times k next_bytes in Some (map_field_checker names)
+  | "c" -> let k = next_int () in let names = n_times k next_bytes in checker_names := Some names; Some (map_field_checker names)
   | "o" ->
       let k = next_int () in
       let mappings = n_times k (fun () -> let a = next_bytes () in let b = next_bytes () in (a, b)) in
-      let inner = parse_checker () in
+      let inner = parse_checker_inner () in
+      checker_names := None;
       with_field_overrides inner mappings
   | t -> failwith ("bad checker token " ^ t)
+let parse_checker () : checker = checker_names := None; parse_checker_inner ()
+let toslice_tok () : string list =
+  match !checker_names with
+  | Some names -> let l = names_set names [] in ["ts:" ^ String.concat ":" (string_of_int (List.length l) :: List.map hex_of_bytes l)]
+  | None -> []
 
 (* an op as the model sees it, plus what it returns to the caller *)
 type opkind = Plain | Gss of str | Gsl
@@ -129,6 +138,69 @@ let slist_tok (l : str list) = String.concat ":" (string_of_int (List.length l) 
 
 let out_strs (l : str list) = out (string_of_int (List.length l)); List.iter (fun s -> out (hex_of_bytes s)) l
 
+
+let dflt_string : str = bytes_of_hex "64666c74"
+let dflt_time : z * n = (z_of_dec "63000000000", n_of_int 7)
+
+(* every getter on one field of bucket st; [label] are the tokens naming the field in the output *)
+let out_field_reads (label : string list) (name : str) (st : bucket) =
+  out "| F"; List.iter out label;
+  out ("str=" ^ str_tok (get_string name st));
+  out ("bool=" ^ bool_tok (get_bool name st));
+  out ("i32=" ^ int_tok (get_int32 name st));
+  out ("i64=" ^ int_tok (get_int64 name st));
+  out ("f64=" ^ float_tok (get_float64 name st));
+  out ("time=" ^ time_tok (get_time name st));
+  out ("sl=" ^ slist_tok (get_string_list name st));
+  out "| L"; List.iter out label;
+  (match get_list name st with
+   | Ok None -> out "n"
+   | Ok (Some l) -> out_value (VList l)
+   | _ -> out "p");
+  out "| M"; List.iter out label;
+  out_value (VMap (get_map name st));
+  out "| G"; List.iter out label;
+  out ("swd=" ^ str_tok (get_string_with_default name dflt_string st));
+  (let (r, e) = get_string_or_error name st in
+   out ("soe=" ^ str_tok r);
+   out ("soee=" ^ (match r with SPanic -> "p" | SUnmodelled -> "u" | _ -> bool_str e)));
+  out ("bd=" ^ bool_str (get_bool_with_default name true st) ^ bool_str (get_bool_with_default name false st));
+  out ("i32d=" ^ dec_of_z (get_int32_with_default name (z_of_int (-4242)) st));
+  out ("i64d=" ^ dec_of_z (get_int64_with_default name (z_of_int 424242) st));
+  (let (t, e) = get_time_or_error name st in
+   out ("toe=" ^ time_tok (Some t)); out ("toee=" ^ bool_str e));
+  out ("tod=" ^ time_tok (Some (get_time_or_default name dflt_time st)));
+  out ("sle=" ^ bool_str (is_string_list_empty name st));
+  out ("par=" ^ (match a_lookup name st with Some (Sub _) -> "1" | _ -> "n"))
+
+(* ForEachTypedBucket on the entity bucket and three copies of it: whole, without the keys named
+   [xname] at any depth, and the whole copied over the partial copy *)
+let out_entity_sections (st : bucket) (xname : str option) =
+  let cb = child_buckets st in
+  out "| B"; out (string_of_int (List.length cb));
+  List.iter (fun (k, c) -> out (hex_of_bytes k ^ ":" ^ string_of_int (List.length c))) cb;
+  let digest filter =
+    let ps = copy_paths filter [] (Sub st) in
+    out (string_of_int (List.length ps));
+    out (string_of_int (List.fold_left (fun a p -> a + List.length p) 0 ps)) in
+  let out_res r = match r with
+    | Ok c -> out "ok"; out_dump c
+    | Err -> out "err"
+    | _ -> out "panic" in
+  let all _ = true in
+  out "| C"; digest all; out_res (copy_bucket all st []);
+  match xname with
+  | None -> ()
+  | Some x ->
+      let f p = match List.rev p with k :: _ -> not (k = x) | [] -> true in
+      out "| E"; out (hex_of_bytes x); digest f;
+      let part = copy_bucket f st [] in
+      out_res part;
+      out "| O";
+      (match part with
+       | Ok c -> out_res (copy_bucket all st c)
+       | _ -> out "skip")
+
 (* S: the entity bucket starts as <dump>; every phase runs its setter calls with its checker
    in one transaction (rolled back when the bucket reports an error), the bucket is dumped
    after each phase, then every name in R is read with every getter. *)
@@ -167,7 +239,7 @@ let run_scenario () =
     out "| P";
     if !panicked then out "panic"
     else (match !cur with
-      | Ok st -> b := st; out "ok"; List.iter out (List.rev !outs); out_dump st
+      | Ok st -> b := st; out "ok"; List.iter out (List.rev !outs); List.iter out (toslice_tok ()); out_dump st
       | Err -> out "err"
       | Panic -> out "panic"
       | OutOfFuel -> out "fuel")
@@ -176,24 +248,113 @@ let run_scenario () =
   (match next () with "R" -> () | t -> failwith ("expected R, got " ^ t));
   let nn = next_int () in
   let names = n_times nn next_bytes in
-  List.iter (fun name ->
-    let st = !b in
-    out "| F"; out (hex_of_bytes name);
-    out ("str=" ^ str_tok (get_string name st));
-    out ("bool=" ^ bool_tok (get_bool name st));
-    out ("i32=" ^ int_tok (get_int32 name st));
-    out ("i64=" ^ int_tok (get_int64 name st));
-    out ("f64=" ^ float_tok (get_float64 name st));
-    out ("time=" ^ time_tok (get_time name st));
-    out ("sl=" ^ slist_tok (get_string_list name st));
-    out "| L"; out (hex_of_bytes name);
-    (match get_list name st with
-     | Ok None -> out "n"
-     | Ok (Some l) -> out_value (VList l)
-     | _ -> out "p");
-    out "| M"; out (hex_of_bytes name);
-    out_value (VMap (get_map name st))) names;
-  out "| A"; out_value (VMap (entries_of !b))
+  List.iter (fun name -> out_field_reads [hex_of_bytes name] name !b) names;
+  out "| A"; out_value (VMap (entries_of !b));
+  out_entity_sections !b (match names with x :: _ -> Some x | [] -> None)
+
+
+(* X <nlevels> (<plen> <key>{plen}){nlevels} <id> <dump> <nphases> phase{n} R <n> (<level> <name>){n}
+   phase := P <create> <checker> <nstmts> stmt{n}
+   stmt  := s <slot> <op> | g <slot> | w <slot> <n> (<from> <to>){n}
+   One persist per phase through the store at level 0 of the chain (Codec/Persist.v); <dump> is the
+   root store's entity bucket.  Ops as in S, plus the PersistContext-only calls
+   links <name> <n> <id>{n} | isc <name> <on-create> <on-update> | id <name> | tx <name>. *)
+let parse_pop () : pop * opkind =
+  match !toks.(!pos) with
+  | "links" -> ignore (next ()); let name = next_bytes () in let k = next_int () in (PLinked (name, n_times k next_bytes), Plain)
+  | "isc" ->
+      ignore (next ()); let name = next_bytes () in
+      let vc = next_bytes () in let vu = next_bytes () in
+      (PByCreate (name, SString vc, SString vu), Plain)
+  | "id" -> ignore (next ()); (PId (next_bytes ()), Plain)
+  | "tx" -> ignore (next ()); (PTx (next_bytes ()), Plain)
+  | _ -> let (op, kind) = parse_op () in (PBase op, kind)
+
+let parse_stmt () : pstmt * opkind =
+  match next () with
+  | "s" -> let slot = nat_of_int (next_int ()) in let (o, kind) = parse_pop () in (PSet (slot, o), kind)
+  | "g" -> (PParent (nat_of_int (next_int ())), Plain)
+  | "w" ->
+      let slot = nat_of_int (next_int ()) in
+      let k = next_int () in
+      let m = n_times k (fun () -> let a = next_bytes () in let b = next_bytes () in (a, b)) in
+      (POverride (slot, m), Plain)
+  | t -> failwith ("bad statement " ^ t)
+
+let run_persist_scenario () =
+  let nl = next_int () in
+  let ch = n_times nl (fun () -> let k = next_int () in n_times k next_bytes) in
+  let id = next_bytes () in
+  let b = ref (parse_dump ()) in
+  let nph = next_int () in
+  out "| I"; out_dump !b;
+  for _ = 1 to nph do
+    (match next () with "P" -> () | t -> failwith ("expected P, got " ^ t));
+    let create = next () = "1" in
+    let chk = parse_checker () in
+    let n = next_int () in
+    let stmts = n_times n parse_stmt in
+    let whole = persist ch chk create id (List.map fst stmts) !b in
+    (* statement by statement, for what GetAndSetString / GetAndSetStringList return *)
+    let outs = ref [] in
+    let panicked = ref false in
+    let stepwise = ref None in
+    (match (if create then ensure_path (level_path ch O) !b else Ok !b) with
+     | Ok b0 ->
+         (match get_path (level_path ch O) b0 with
+          | Some _ ->
+              let cur = ref (Ok (init_slots { pc_level = O; pc_checker = chk; pc_create = create; pc_id = id }, b0)) in
+              List.iter (fun (st, kind) ->
+                match !cur with
+                | Ok (cs, stb) when not !panicked ->
+                    (match st, kind with
+                     | PSet (slot, o), (Gss _ | Gsl) ->
+                         (match cs slot with
+                          | Some c ->
+                              let w = ctx_write ch c o in
+                              (match get_path w.w_path stb with
+                               | Some lb ->
+                                   (match kind with
+                                    | Gss v ->
+                                        (match get_and_set_string_out w.w_checker (op_name w.w_op) v lb with
+                                         | GasVal (None, chg) -> outs := ("gss:n:" ^ bool_str chg) :: !outs
+                                         | GasVal (Some o, chg) -> outs := ("gss:s:" ^ hex_of_bytes o ^ ":" ^ bool_str chg) :: !outs
+                                         | GasPanic -> panicked := true
+                                         | GasUnmodelled -> outs := "gss:u" :: !outs)
+                                    | Gsl ->
+                                        let (l, pr) = get_and_set_string_list_out w.w_checker (op_name w.w_op) lb in
+                                        outs := ("gsl:" ^ slist_tok l ^ ":" ^ bool_str pr) :: !outs
+                                    | Plain -> ())
+                               | None -> ())
+                          | None -> ())
+                     | _ -> ());
+                    if not !panicked then cur := step ch st cs stb
+                | _ -> ()) stmts;
+              (match !cur with Ok (_, stb) -> stepwise := Some stb | _ -> ())
+          | None -> ())
+     | _ -> ());
+    out "| P";
+    if !panicked then out "panic"
+    else (match whole with
+      | Ok st ->
+          (match !stepwise with
+           | Some st' when st' = st -> ()
+           | _ -> failwith "persist and the statement-wise run differ");
+          b := st; out "ok"; List.iter out (List.rev !outs); List.iter out (toslice_tok ()); out_dump st
+      | Err -> out "err"
+      | Panic -> out "panic"
+      | OutOfFuel -> out "fuel")
+  done;
+  (match next () with "R" -> () | t -> failwith ("expected R, got " ^ t));
+  let nn = next_int () in
+  let reads = n_times nn (fun () -> let l = next_int () in let name = next_bytes () in (l, name)) in
+  List.iter (fun (l, name) ->
+    let label = [string_of_int l; hex_of_bytes name] in
+    match get_path (level_path ch (nat_of_int l)) !b with
+    | Some lb -> out_field_reads label name lb
+    | None -> out "| F"; List.iter out label; out "nobucket") reads;
+  out "| A"; out_value (VMap (entries_of !b));
+  out_entity_sections !b (match reads with (_, x) :: _ -> Some x | [] -> None)
 
 let () =
   iter_lines (fun line ->
@@ -245,6 +406,7 @@ let () =
              out ("f64=" ^ float_tok (read_float64 bytes));
              out ("time=" ^ time_tok (read_time bytes))
          | "S" -> run_scenario ()
+         | "X" -> run_persist_scenario ()
          | _ -> out "?")
       with e -> out ("driver-error:" ^ String.map (fun c -> if c = ' ' then '_' else c) (Printexc.to_string e)));
       print_endline (Buffer.contents buf)
